@@ -226,12 +226,12 @@ class BaseProperty(base.BaseObject):
 
     @name.setter
     def name(self, new_name):
-        if self.name == new_name:
-            return
-
-        # Make sure name cannot be set to None or empty
+        # Make sure name cannot be set to None or empty; the id serves as name
+        # and has to be unique among the siblings like any other name.
         if not new_name:
-            self._name = self._id
+            new_name = self._id
+
+        if self.name == new_name:
             return
 
         curr_parent = self.parent
